@@ -32,9 +32,12 @@ pub fn gen_pool(rng: &mut StdRng, extremes: bool) -> Case {
     let dec_choices: &[u8] = if extremes && rng.gen_range(0..4) == 0 { &[0, 1, 2, 6, 18] } else { &[6, 8, 12, 18] };
     let decs: Vec<u8> = (0..n).map(|_| *dec_choices.choose(rng).unwrap()).collect();
     let maxd = *decs.iter().max().unwrap() as u32;
-    let amp = match rng.gen_range(0..6) {
+    // pool creation accepts every amplification above zero
+    let amp = match rng.gen_range(0..8) {
         0 => 1,
         1 => *[10u64, 85, 100, 2000, 1_000_000].choose(rng).unwrap(),
+        2 => *[1_000_001u64, 5_000_000, 1_000_000_000, u64::MAX / 4, u64::MAX].choose(rng).unwrap(),
+        3 => log_uniform(rng, 1_000_000, u64::MAX as u128) as u64,
         _ => log_uniform(rng, 1, 1_000_000) as u64,
     };
     // normalised base size, then per-asset skew up to 1000:1
